@@ -292,6 +292,8 @@ def check_C08(ctx):
     scen += pub_scenarios(ctx)
     scen += vt.tlc_generate(ctx, 'GenDoc', 'C08', 0)         # stalled resolvers (real clock)
     wire_family(ctx, 'C08', scen, rule, nontrivial=lambda s, es: True)
+    # on the real kernel: a target that silently drops the SYN of the SACK attempt (KernelPath!C08Lab)
+    lab_family(ctx, 'C08', 'C08')
     ctx.extra['rule'] = rule + '; plus ' + (WIRE_RULE % 'C08All (silence, floods, SACK handshake stalls, cancellation grid incl. ties)')
     vt.write_evidence(ctx, 'model_checking', ctx_rule(ctx), exhaustive=True)
 
@@ -698,6 +700,25 @@ def check_C14(ctx):
     ctx.assumptions.append('the Go race detector is the access-level trace checker (trusted, no false positives); TLA+ supplies the schedule classes and the design-level vector-clock model')
     vt.write_evidence(ctx, 'exploration', ctx.extra['rule'], exhaustive=False, trusted=['Go race detector', 'TLC'])
 
+BIGPING = '''
+import socket, struct, sys, time
+s = socket.socket(socket.AF_INET, socket.SOCK_RAW, socket.IPPROTO_ICMP)
+def csum(b):
+    t = sum(struct.unpack('!%dH' % (len(b) // 2), b))
+    while t >> 16: t = (t & 0xffff) + (t >> 16)
+    return ~t & 0xffff
+pl = bytes(1400)
+n = 0
+end = time.time() + 30
+while time.time() < end:
+    n += 1
+    h = struct.pack('!BBHHH', 8, 0, 0, 0x7777, n & 0xffff)
+    h = struct.pack('!BBHHH', 8, 0, csum(h + pl), 0x7777, n & 0xffff)
+    try: s.sendto(h + pl, (sys.argv[1], 0))
+    except OSError: pass
+    time.sleep(0.003)
+'''
+
 LISTENER = '''
 import socket
 s = socket.socket(); s.setsockopt(socket.SOL_SOCKET, socket.SO_REUSEADDR, 1); s.bind(('0.0.0.0', 443)); s.listen(128)
@@ -712,7 +733,7 @@ def lab_run(ctx, s, prefix, cli_bin, runner_bin):
     lab = os.path.join(vt.VERIF, 'lab', 'lab.sh')
     n = s['n']
     vt.sh([lab, 'down', prefix, str(n)])
-    p = vt.sh([lab, 'up', prefix, str(n)] + [str(x) for x in s['silent']])
+    p = vt.sh([lab, 'up', prefix, str(n)] + [str(x) for x in s['silent']], env=dict(os.environ, LAB_REJECT=str(s.get('reject') or 0)))
     lis = None
     try:
         if p.returncode != 0:
@@ -758,7 +779,16 @@ def lab_run(ctx, s, prefix, cli_bin, runner_bin):
             cmd.append(req['hostname'])
         else:
             cmd = ['ip', 'netns', 'exec', tracer, runner_bin, json.dumps(req)]
+        noise = None
+        if s.get('noise') == 'bigping':
+            # unrelated large ICMP: 1400-byte echo requests to the destination (and their replies) while the traceroute runs
+            noise = subprocess.Popen(['ip', 'netns', 'exec', tracer, 'python3', '-c', BIGPING, req['hostname']], stdout=subprocess.DEVNULL, stderr=subprocess.DEVNULL)
+            _t.sleep(0.2)
+        t0 = _t.time()
         q = subprocess.run(['timeout', '60'] + cmd, stdout=subprocess.PIPE, stderr=subprocess.PIPE, text=True, errors='replace')
+        elapsed_ms = int((_t.time() - t0) * 1000)
+        if noise:
+            noise.kill()
         out = {'ok': False, 'err': q.stderr[-300:], 'runs': [], 'rtts_us': []}
         if s['cli']:
             if q.returncode == 0:
@@ -772,7 +802,12 @@ def lab_run(ctx, s, prefix, cli_bin, runner_bin):
             try:
                 out = json.loads(q.stdout.strip().splitlines()[-1])
             except Exception:
-                raise Infra('lab runner produced no result: rc=%s %s %s' % (q.returncode, q.stdout[-300:], q.stderr[-300:]))
+                if q.returncode == 124:         # the call did not return within 60 s (the bound of `timeout`): an outcome, not an infrastructure problem
+                    out = {'ok': False, 'err': 'the request did not return within 60 s', 'runs': [], 'rtts_us': []}
+                elif 'panic:' in q.stderr or 'fatal error:' in q.stderr:      # the process under test crashed
+                    out = {'ok': False, 'err': 'process crashed: ' + q.stderr[q.stderr.find('panic:'):][:200], 'runs': [], 'rtts_us': []}
+                else:
+                    raise Infra('lab runner produced no result: rc=%s %s %s' % (q.returncode, q.stdout[-300:], q.stderr[-300:]))
     finally:
         if lis:
             lis.kill()
@@ -781,19 +816,20 @@ def lab_run(ctx, s, prefix, cli_bin, runner_bin):
         {'event': 'Begin', 'n': 0, 't': 0, 'idx': 0, 'twin': '', 'scen': s['id']},
         {'event': 'Params', 'n': 1, 't': 0, 'scen': s['id'], 'variant': 'lab', 'entry': 'lab', 'strict': False, 'min': req['min_ttl'], 'max': req['max_ttl'],
          'timeout_us': req['timeout_ms'] * 1000, 'delay_us': 20000, 'poll_us': 100000, 'target': req['hostname'], 'port': req['port'], 'cancel_us': 0, 'filter': False,
-         'queries': req['queries'], 'e2e': req['e2e'], 'cli': s['cli'], 'skip': bool(s.get('skip')), 'expect': s['expect']},
+         'queries': req['queries'], 'e2e': req['e2e'], 'cli': s['cli'], 'skip': bool(s.get('skip')), 'expect': s['expect'], 'bound_ms': int(s.get('bound_ms') or 0)},
         {'event': 'Return', 'n': 2, 't': 0, 'scen': s['id'], 'ok': bool(out['ok']), 'panic': '', 'notsupported': 'SACK not supported' in out.get('err', ''),
-         'errmsg': out.get('err', '')[:200], 'runs': out['runs'], 'rtts_us': out['rtts_us'], 'has_result': bool(out['ok'])},
+         'errmsg': out.get('err', '')[:200], 'runs': out['runs'], 'rtts_us': out['rtts_us'], 'has_result': bool(out['ok']), 'elapsed_ms': elapsed_ms},
     ]
 
-def check_C13(ctx):
+def lab_setup(ctx, gen):
+    """Builds the binaries under test (no verif tag: real sockets) and returns (scenarios of the KernelPath family `gen`, run_all)."""
     import subprocess
     from concurrent.futures import ThreadPoolExecutor
     if vt.sh(['ip', 'netns', 'add', 'vtprobe%d' % os.getpid()]).returncode != 0:
         raise Infra('cannot create network namespaces (ip netns add failed)')
     vt.sh(['ip', 'netns', 'del', 'vtprobe%d' % os.getpid()])
     out = os.path.join(ctx.scratch, 'lab.ndjson')
-    r = vt.run_tlc('KernelPath', env={'VT_N': '3' if ctx.quick() else '5', 'VT_TIER': ctx.tier, 'VT_OUT': out}, workers=1, timeout=120)
+    r = vt.run_tlc('KernelPath', env={'VT_N': '3' if ctx.quick() else '5', 'VT_TIER': ctx.tier, 'VT_OUT': out, 'VT_GEN': gen}, workers=1, timeout=120)
     if not r.ok():
         raise Infra('KernelPath failed: ' + vt.filtered(r.out, 20))
     scen = [json.loads(l) for l in open(out) if l.strip()]
@@ -820,12 +856,17 @@ def check_C13(ctx):
                 for e in es:
                     f.write(json.dumps(e) + '\n')
         return tp, evs
+    return scen, run_all
+
+def lab_family(ctx, prop, gen):
+    """Runs the kernel-lab configurations of family `gen`, judges them with property `prop` (a mismatch must recur 3/3)."""
+    scen, run_all = lab_setup(ctx, gen)
     tp, evs = run_all(scen, 'lab')
     ctx.evaluations += len(scen); ctx.validated += len(scen)
     ctx.nontrivial.update(s['label'] for s in scen)
     ctx.states += len(scen); ctx.transitions += len(scen)      # KernelPath is a finite configuration space, not a transition system
     ctx.samples.append({'configuration': scen[0], 'observed': evs[0][-1]})
-    viol = [sid for pr, sid in vt.observe(ctx, [tp], ['C13']) if pr == 'C13']
+    viol = [sid for pr, sid in vt.observe(ctx, [tp], [prop]) if pr == prop]
     by = {s['id']: s for s in scen}
     for sid in viol[:8]:
         # real time, real kernel: a mismatch must reproduce 3 out of 3 times, otherwise the check is inconclusive
@@ -835,7 +876,7 @@ def check_C13(ctx):
         for es in evs2:
             one_tp = os.path.join(ctx.scratch, 'confirm1.trace.ndjson')
             open(one_tp, 'w').write(''.join(json.dumps(e) + '\n' for e in es))
-            if any(pr == 'C13' for pr, _ in vt.observe(ctx, [one_tp], ['C13'])):
+            if any(pr == prop for pr, _ in vt.observe(ctx, [one_tp], [prop])):
                 bad += 1
         if bad < 3:
             # real time on a shared machine: a mismatch that does not recur in three rebuilt labs is transient and is not
@@ -845,14 +886,17 @@ def check_C13(ctx):
             print('NOTE transient kernel-lab mismatch on %s (recurred %d/3)' % (sid, bad))
             continue
         label = by[sid]['label']
-        known = [k for k in vt.load_known() if k.get('status') == 'known' and k['property'] == 'C13']
+        known = [k for k in vt.load_known() if k.get('status') == 'known' and k['property'] == prop]
         import fnmatch
         kf = [k for k in known if fnmatch.fnmatchcase(label, k['signature'])]
         if kf:
-            ctx.known.append(('C13', label, kf[0].get('what', '')))
+            ctx.known.append((prop, label, kf[0].get('what', '')))
             continue
-        d = vt.save_replay(ctx, 'C13', [by[sid]], evs2[0], 'kernel lab configuration; observed vs KernelPath!Expected')
-        ctx.violations.append(('C13', label, sid, d))
+        d = vt.save_replay(ctx, prop, [by[sid]], evs2[0], 'kernel lab configuration; observed vs KernelPath!Expected')
+        ctx.violations.append((prop, label, sid, d))
+
+def check_C13(ctx):
+    lab_family(ctx, 'C13', 'C13')
     ctx.extra['rule'] = ('configurations enumerated by TLC from KernelPath.tla (path length, variant, destination port open/closed/SACK-disabled, silent routers, first TTL, '
                          'concurrent runs, CLI vs library) built as chains of network namespaces with kernel routers; the CLI / a RunTraceroute driver built from the working tree '
                          '(no verif tag: AF_PACKET source, raw sink, attach-and-drain) runs inside; its JSON is validated by TLC against KernelPath!Expected; distinct by label')
